@@ -168,7 +168,8 @@ GReject(t) ==
     /\ lockHolder' = 0
     /\ result' = [result EXCEPT ![t] = "rejected"]
     /\ pc' = [pc EXCEPT ![t] = "finished"]
-    /\ UNCHANGED <<readTs, cts, nextTs, committedTxns, lastCleanup, txnBegun, rdBegun, rdDone, writeCh, batch, mem,
+    /\ committedTxns' = {c \in committedTxns : c.ts # cts[t]}
+    /\ UNCHANGED <<readTs, cts, nextTs, lastCleanup, txnBegun, rdBegun, rdDone, writeCh, batch, mem,
                    allCommits, entered, toPut, stampBlocked>>
     /\ Eager /\ H("reject", t)
 
